@@ -133,6 +133,12 @@ let handle (line:string) : string =
       String.concat " " (List.map tok_str toks) ^ " | " ^
       String.concat " " (List.map (fun (v, z) -> Printf.sprintf "%d=%d" v z)
                            (List.sort compare (List.map (fun (v, z) -> (int_of_n v, int_of_z z)) store)))
+  | Atom "run" :: Atom "fast" :: Atom vflags :: Atom late :: Atom fuel :: tree :: L evs :: _ ->
+      let (toks, store) = run_fast (bits vflags 3) (late = "1") (tree_of tree)
+          (List.map (fun e -> bytes_of_hex (atom e)) evs) (nat_of_int (int_of_string fuel)) in
+      String.concat " " (List.map tok_str toks) ^ " | " ^
+      String.concat " " (List.map (fun (v, z) -> Printf.sprintf "%d=%d" v z)
+                           (List.sort compare (List.map (fun (v, z) -> (int_of_n v, int_of_z z)) store)))
   | Atom "spec" :: Atom late :: Atom fuel :: tree :: L evs :: _ ->
       let (toks, store) = run_spec (late = "1") (tree_of tree)
           (List.map (fun e -> bytes_of_hex (atom e)) evs) (nat_of_int (int_of_string fuel)) in
